@@ -91,6 +91,7 @@ class Recorder:
         self.violations = {}     # key -> {'key','msg','case','count'}
         self.notes = {}
         self.exhaustive = {}
+        self.debug_log = False   # the shard runs with DEBUG-level logging
 
     def count(self, name, num=1):
         self.counters[name] = self.counters.get(name, 0) + num
@@ -115,8 +116,11 @@ class Recorder:
         must be enough for ``replay``.'''
         ent = self.violations.get(key)
         if ent is None:
+            case = jsonable(case)
+            if self.debug_log and isinstance(case, dict):
+                case = dict(case, debug_log=True)   # replayed the same way
             self.violations[key] = {'key': key, 'msg': str(msg)[:2000],
-                                    'case': jsonable(case), 'count': 1}
+                                    'case': case, 'count': 1}
         else:
             ent['count'] += 1
 
@@ -367,6 +371,45 @@ def main_check(prop, tier, seed, replay=None):
     return 0
 
 
+class debug_logging:
+    '''The valjean loggers at DEBUG level (as with `valjean -v`), their
+    records going nowhere: what the program does must not depend on how much
+    it logs.'''
+    # pylint: disable=invalid-name
+
+    def __init__(self, active):
+        self.active = active
+        self.saved = None
+
+    def __enter__(self):
+        if self.active:
+            import logging
+            logger = logging.getLogger('valjean')
+            self.saved = (logger.level, logger.handlers[:], logger.propagate,
+                          logging.root.manager.disable)
+            # (the shards silence logging globally)
+            logging.disable(logging.NOTSET)
+            logger.handlers[:] = [logging.NullHandler()]
+            logger.propagate = False
+            logger.setLevel(logging.DEBUG)
+
+    def __exit__(self, *exc):
+        if self.active:
+            import logging
+            logger = logging.getLogger('valjean')
+            logger.setLevel(self.saved[0])
+            logger.handlers[:] = self.saved[1]
+            logger.propagate = self.saved[2]
+            logging.disable(self.saved[3])
+        return False
+
+
+# checks whose every third shard runs with DEBUG logging (the scheduler
+# checks choose per run, C11 is too slow for it)
+DEBUG_LOG_PROPS = ('C05', 'C06', 'C07', 'C08', 'C09', 'C10', 'C12', 'C13',
+                   'C14', 'C15', 'C16', 'C17', 'C18', 'C19', 'C20')
+
+
 def shard_main(argv):
     '''``python -m vf.shard PROP SPEC RESULT``.'''
     import importlib
@@ -375,11 +418,20 @@ def shard_main(argv):
         spec = json.load(fil)
     mod = importlib.import_module(f'vf.props.{prop.lower()}')
     rec = Recorder()
+    debug = prop in DEBUG_LOG_PROPS and 'replay' not in spec and \
+        isinstance(spec.get('shard'), int) and spec['shard'] % 3 == 1
+    if spec.get('replay', {}).get('debug_log') if isinstance(
+            spec.get('replay'), dict) else False:
+        debug = True
     try:
-        if 'replay' in spec:
-            mod.replay(spec['replay'], rec)
-        else:
-            mod.run(spec, rec)
+        with debug_logging(debug):
+            rec.debug_log = debug
+            if debug:
+                rec.count('shards_run_with_debug_logging')
+            if 'replay' in spec:
+                mod.replay(spec['replay'], rec)
+            else:
+                mod.run(spec, rec)
     except BaseException:  # pylint: disable=broad-except
         traceback.print_exc()
         with open(rfile + '.partial', 'w') as fil:
